@@ -282,7 +282,7 @@ func Eq(a, b *Term) *Term {
 	if a.Sort != b.Sort {
 		panic(fmt.Sprintf("Eq sort mismatch %v %v", a.Sort, b.Sort))
 	}
-	if a == b && a.Sort.K != SFP {
+	if a.Sort.K != SFP && (a == b || sameTerm(a, b, 12)) {
 		return TrueT
 	}
 	if a.IsConst() && b.IsConst() {
@@ -359,6 +359,29 @@ func remZeroRewrite(a, b *Term) *Term {
 		}
 	}
 	return res
+}
+
+// sameTerm: structural identity (bounded depth); sound as a sufficient test for
+// semantic equality of non-FP terms.
+func sameTerm(a, b *Term, depth int) bool {
+	if a == b {
+		return true
+	}
+	if depth == 0 || a.Op != b.Op || a.Sort != b.Sort || len(a.Args) != len(b.Args) || a.A != b.A || a.B != b.B {
+		return false
+	}
+	switch a.Op {
+	case OConst:
+		return a.Val == b.Val
+	case OVar:
+		return a.Name == b.Name
+	}
+	for i := range a.Args {
+		if !sameTerm(a.Args[i], b.Args[i], depth-1) {
+			return false
+		}
+	}
+	return true
 }
 
 func Ite(c, a, b *Term) *Term {
